@@ -47,6 +47,14 @@ def templates(tier):
     yield 'in-branch', [P({'ret': ['ok'], 'diag': ['A'], 'plug': True}), ['br', [cond, ['A']], [G([s], [P(m)], [P(t)])]], P(OK)]
   for s1, m1, t1, s2, m2, t2 in itertools.product(S_ALPHA, M_ALPHA, T_ALPHA, S_ALPHA, M_ALPHA, T_ALPHA):
     yield 'two-in-sequence', [G([s1], [P(m1)], [P(t1)]), G([s2], [P(m2)], [P(t2)]), P(OK)]
+  # teardown nodes that are not plain phases: a branch (and a checkpoint) in the teardown of a group inside a subtest
+  # that main -- or an earlier phase -- may already have failed
+  DA = {'ret': ['ok'], 'diag': ['A']}
+  for p0, s, m, cond, t, t2 in itertools.product([DA, FS, {'ret': ['fail_subtest'], 'diag': ['A']}], S_ALPHA[:2], M_ALPHA + [FS],
+                                                 ['any', 'not_any'], T_ALPHA[:3], T_ALPHA[:2]):
+    yield 'td-branch-in-subtest', [['sub', [P(p0), G([s], [P(m)], [['br', [cond, ['A']], [P(t)]], ['c', 'last', 'stop'], P(t2)]), P(OK)]], P(OK)]
+  for s, m, cond, t in itertools.product(S_ALPHA[:2], M_ALPHA, ['any', 'not_any'], T_ALPHA[:3]):
+    yield 'td-branch', [P({'ret': ['ok'], 'diag': ['A'], 'plug': True}), G([s], [P(m)], [['br', [cond, ['A']], [P(t)]], P(OK)]), P(OK)]
   if tier == 'thorough':
     for m0, s, m, t, s2, m2, t2, ot in itertools.product(M_ALPHA[:4], S_ALPHA, M_ALPHA[:4], T_ALPHA, S_ALPHA, M_ALPHA[:4], T_ALPHA, T_ALPHA[:3]):
       yield 'two-in-main', [G([], [P(m0), G([s], [P(m)], [P(t)]), G([s2], [P(m2)], [P(t2)])], [P(ot)]), P(OK)]
@@ -125,6 +133,18 @@ def check_groups(spec, obs):
                 bad.append(('teardown-after-following', 'teardown %s of %s ran after following node %s' % (t, n['name'], f)))
             if plug_td is not None and plug_td < tp:
               bad.append(('teardown-after-plug-teardown', 'teardown %s of %s ran after plug tearDown' % (t, n['name'])))
+          # teardown nodes that are not phases are "executed" when they are evaluated: exactly one record each
+          for c in n['teardown']:
+            if c['k'] == 'br':
+              cnt = sum(1 for b in obs.get('branches', []) if b[0] == c['name'])
+              if cnt != 1:
+                bad.append(('teardown-branch-count', 'group %s was entered but its teardown branch %s was evaluated %d times'
+                            % (n['name'], c['name'], cnt)))
+            elif c['k'] == 'c':
+              cnt = sum(1 for b in obs.get('checkpoints', []) if b[0] == c['name'])
+              if cnt != 1:
+                bad.append(('teardown-checkpoint-count', 'group %s was entered but its teardown checkpoint %s was evaluated %d times'
+                            % (n['name'], c['name'], cnt)))
           if any(rec_terminal(last_rec[t]) for t in direct_td if t in last_rec):
             if obs.get('outcome') == 'PASS':
               bad.append(('terminal-teardown-lost', 'a teardown phase of %s had a terminal result but the outcome is PASS' % n['name']))
